@@ -498,6 +498,8 @@ impl From<&syn::Lifetime> for Lifetime {
     fn from(lt: &syn::Lifetime) -> Self {
         if lt.ident == "static" {
             Self::Static
+        } else if lt.ident == "_" {
+            Self::Anonymous
         } else {
             Self::Named(NamedLifetime((&lt.ident).into()))
         }
